@@ -13,7 +13,7 @@ from vlib import cssmodel as A
 from vlib.runner import h64, REPO, HarnessAbort, Sub, Violation, frame_sig
 
 PROPERTY = 'C01'
-HANG_WATCH = 30  # seconds of CPU on one case after which the runner kills the worker and reports hang:cpu-bound
+HANG_WATCH = 60  # seconds of CPU on one case after which the runner kills the worker and reports hang:cpu-bound
 RULE = (
     'soup: 1..25 fragments from an alphabet of token spellings of every kind, brackets, quotes, escapes, control and '
     'non-ASCII characters and "dangerous glue" (url( / var( / rgb( / calc( / @charset at the end, at-keywords inside '
@@ -30,7 +30,7 @@ RULE = (
     'imports / comments / margin boxes / variables / namespaces ..., and runs of one character after an opener: unclosed string, '
     'url, comment of asterisks, backslashes, digits ...) at n = 30, 300, 1500 (thorough up to 10000): same oracle, so recursion '
     'depth and cost must not grow with length. The runner watches every case from outside: a worker that is still computing on '
-    'one case after 30 s of CPU time is killed and the case reported as hang:cpu-bound (regular-expression backtracking is '
+    'one case after 60 s of CPU time is killed and the case reported as hang:cpu-bound (regular-expression backtracking is '
     'invisible to the call meter). Every case x (parseComments, validate '
     'at parser and call level, entry point parseString / parseStyle / fresh or reused CSSParser, fetcher returning '
     'content / None / (None, None) / nothing, acyclic and cyclic @import graphs). Oracle: returns the DOM type, no '
@@ -673,13 +673,19 @@ LONG = {
     'not': lambda n: 'a' + ':not(b)' * n + '{top:0}',
     'style-attr-decls': lambda n: 'top:0;' * n,
 }
-LONG_SIZES = {'quick': [30, 300, 1500], 'thorough': [30, 100, 300, 1000, 3000, 10000]}
+LONG_SIZES = {'quick': [30, 300, 1500], 'thorough': [30, 100, 300, 1000, 3000, 5000]}
+# sys.setprofile multiplies the run time: sizes from 3000 on run without the call meter and rely on the watchdog
+CHEAP = ('digits', 'terms-space', 'terms-comma', 'string', 'open-string', 'ident', 'comments', 'escapes', 'white', 'open-comment-stars',
+         'comment-stars', 'backslashes', 'semicolons', 'dashes', 'hashes', 'pipes', 'at', 'newlines', 'open-url', 'open-string-nl')
 
 
 def long_cases(tier):
     for name in sorted(LONG):
         for n in LONG_SIZES[tier]:
             yield {'family': name, 'n': n}
+        if name in CHEAP:
+            # e.g. Python refuses to convert integers of more than 4300 digits
+            yield {'family': name, 'n': 20000}
 
 
 def check_long(case, ctx):
@@ -688,7 +694,8 @@ def check_long(case, ctx):
     if case['family'].startswith('style-attr'):
         cfg['entry'] = 'style'
     # flat inputs: linear growth expected; the bound below is the common polynomial budget
-    cost, recs, nrules = run_one(text, cfg, ctx)
+    big = case['n'] >= 3000
+    cost, recs, nrules = run_one(text, cfg, ctx, meter=not big)
     ctx.event('long:' + case['family'])
     ctx.case([case['family'], case['n']], case['n'] >= 300, {'family': case['family'], 'n': case['n'], 'calls': cost, 'length': len(text)})
 
